@@ -22,6 +22,7 @@ ESTIMATORS = ["numpy", "torch", "torch_fourier"]
 # sub-pixel clause, domain guards (both are functions of the generated inputs only)
 GUARD_PARABOLA = 0.15  # textbook 3-point estimate within 0.15 px of the truth
 GUARD_SKEW = 0.06  # per-axis refinement of a skewed peak off by <= 0.06 sampling steps
+GUARD_QUANT = 0.02  # integer-dtype images: rounding moves the correlation peak by <= 0.02 px
 
 _MEASURE = bool(os.environ.get("VQ_C13_MEASURE"))
 
@@ -72,9 +73,13 @@ def cases(draw, tight_margins=True):
     w = draw(st.just(h) | st.builds(lambda m, p: min(2 * m + p, 40), st.integers(4, 20), st.integers(0, 1)))
     h = min(h, 40)
     est = draw(st.sampled_from(["numpy", "numpy", "torch", "torch_fourier"]))
-    up = draw(st.sampled_from(UPS) | st.sampled_from(UPS) | st.integers(1, 64))
+    # input dtype: None = floating point (`dtype`), else integer-valued counts stored in an integer
+    # dtype (all estimator/input combinations accept those on the pinned tree; float16/bfloat16
+    # are rejected by torch.fft on CPU and are not in the domain)
+    in_dtype = draw(st.sampled_from([None] * 10 + sorted(R.INT_DTYPES)))
+    up = draw(_ups(est, in_dtype))
     sk = draw(st.sampled_from(["int", "real", "real", "zero"]))
-    dtype = "float64" if est == "numpy" else draw(st.sampled_from(["float64", "float64", "float32"]))
+    dtype = "float64" if (est == "numpy" or in_dtype) else draw(st.sampled_from(["float64", "float64", "float32"]))
     case = {
         "h": h,
         "w": w,
@@ -84,6 +89,9 @@ def cases(draw, tight_margins=True):
         "shift_kind": sk,
         "img": draw(images(allow_noise=(sk != "real"), dtype=dtype)),
     }
+    if in_dtype:
+        case["in_dtype"] = in_dtype
+        case["img"]["offset"] = 0.0  # the pedestal of unsigned data comes from R.INT_DTYPES
     if sk == "zero":
         case["shift"] = [0, 0]
     else:
@@ -107,8 +115,18 @@ def cases(draw, tight_margins=True):
     nh = draw(st.sampled_from([0, 0, 0, 1, 2]))
     if nh:
         kind = "fft" if (est == "numpy" and case["fft_input"]) or est == "torch_fourier" else "real"
-        case["history"] = [draw(_step(kind, dtype, sk, tight_margins)) for _ in range(nh)]
+        case["history"] = [draw(_step(kind, dtype, sk, tight_margins, in_dtype)) for _ in range(nh)]
     return case
+
+
+def _ups(est, in_dtype):
+    """Upsample factors.  cross_correlation_shift_torch converts integer tensors to float32; with
+    the pedestal of unsigned data its float32 correlation loses the peak curvature at high
+    upsampling (measured on the pinned tree: 1.2 upsampled px at up=64, 0.07 at 16, 0.023 at 8,
+    for exact integer shifts), the same rounding limit as a pedestal on float32 images: up <= 8."""
+    if est == "torch" and in_dtype and R.INT_DTYPES[in_dtype][1] != 0.0:
+        return st.sampled_from([1, 2, 3, 4, 8]) | st.integers(1, 8)
+    return st.sampled_from(UPS) | st.sampled_from(UPS) | st.integers(1, 64)
 
 
 def _margins(sk, tight_margins):
@@ -117,14 +135,14 @@ def _margins(sk, tight_margins):
 
 
 @st.composite
-def _step(draw, kind, dtype, sk, tight_margins):
+def _step(draw, kind, dtype, sk, tight_margins, in_dtype=None):
     """Settings of one further call on the already-built inputs of input kind `kind`."""
     t_est = "torch" if kind == "real" else "torch_fourier"
     # the numpy estimator is only judged on float64 data (its 1e-6 exactness clause)
     est = t_est if dtype == "float32" else draw(st.sampled_from(["numpy", "numpy", t_est]))
     step = {
         "est": est,
-        "up": draw(st.sampled_from(UPS) | st.integers(1, 64)),
+        "up": draw(_ups(est, in_dtype)),
         "swap": draw(st.booleans()),
     }
     if est == "numpy":
@@ -186,7 +204,7 @@ class _Pool:
 
     def __init__(self, ref, im, dtype):
         self.dtype = dtype
-        self.a, self.b = ref.copy(), im.copy()
+        self.a, self.b = ref.copy(), im.copy()  # float64, or the case's integer dtype
         self._F = self._t = self._G = None
 
     def real_np(self):
@@ -265,17 +283,25 @@ def _judge(ctx, case, cfg, iu, pool, T, k, inner_swap):
     up, est = int(cfg["up"]), cfg["est"]
     integer, identical, guard_ok = T["integer"], T["identical"], T["guard_ok"]
     swap = bool(cfg.get("swap"))
+    # ref/im: what the estimator sees (as float64); refX/imX: the exact pair im = T_s(ref) they were
+    # rounded from (the same arrays unless the case is a sub-pixel shift of integer-dtype data)
     if swap:
-        ref, im, s = T["im"], T["ref"], (-T["s"][0], -T["s"][1])
+        ref, im, refX, imX, s = T["im"], T["ref"], T["imX"], T["refX"], (-T["s"][0], -T["s"][1])
     else:
-        ref, im, s = T["ref"], T["im"], T["s"]
+        ref, im, refX, imX, s = T["ref"], T["im"], T["refX"], T["imX"], T["s"]
+    qsub = T["qsub"]
     exp = (R.wrap_centered(-float(s[0]), h), R.wrap_centered(-float(s[1]), w))
-    tcfg = dict(cfg, dtype=case["dtype"])
+    # working precision of the torch routines: float32 for float32 tensors and for integer tensors
+    # handed to cross_correlation_shift_torch (torch.fft promotes them to float32)
+    f32 = case["dtype"] == "float32" or (est == "torch" and bool(case.get("in_dtype")))
+    tcfg = dict(cfg, dtype="float32" if f32 else "float64")
     tag = "" if k == 0 else "call #%d on the same input arrays (%s, up=%d%s): " % (k + 1, est, up, ", roles swapped" if swap else "")
 
     want_img = est == "numpy" and bool(cfg.get("ret_img"))
     r, aligned = _estimate(ctx, case, cfg, iu, pool, swap, tag + "estimate(ref, im)", want_img)
-    tol = shift_tol(tcfg, integer)
+    # + the displacement of the correlation peak caused by rounding the two images to integers
+    #   (0 unless qsub; computed by the harness from the pair itself, see R.true_peak)
+    tol = shift_tol(tcfg, integer) + T["qdelta"]
     scale = float(np.max(np.abs(im)))
 
     # -- the aligned image is `im` translated by the *returned* shift (holds whatever the accuracy)
@@ -284,7 +310,7 @@ def _judge(ctx, case, cfg, iu, pool, T, k, inner_swap):
         if np.iscomplexobj(al):
             raise core.Violation(tag + "aligned image (fft_output=False) is complex", case)
         mine = R.fourier_shift(im, (r[0], r[1]))
-        e = core.maxerr(al, mine)
+        e = float(np.max(np.abs(R.drop_nyquist(al - mine)))) if qsub else core.maxerr(al, mine)
         _ratio(ctx, "aligned_vs_T_r(im)", e, 1e-6 * scale)
         if e > 1e-6 * scale:
             _fail(tag + "aligned image is not im translated by the returned shift %r: max|diff| = %.3g (image scale %.3g)" % (r.tolist(), e, scale), case)
@@ -302,6 +328,8 @@ def _judge(ctx, case, cfg, iu, pool, T, k, inner_swap):
     ey, ex = R.circ_err(r[0], exp[0], h), R.circ_err(r[1], exp[1], w)
     err = max(ey, ex)
     stage = "" if integer else (":coarse_only" if up == 1 or (up == 2 and est != "numpy") else ":upsampled")
+    if case.get("in_dtype"):
+        stage += ":unsigned" if R.INT_DTYPES[case["in_dtype"]][1] else ":signed"
     _ratio(ctx, "shift:%s:%s%s" % ("int" if integer else "sub", est, stage), err, tol)
     # No hypothesis.target(): with Hypothesis 6.168 the target optimiser's hill climb was observed
     # (seed 12345) to spin for > 10 min inside cached simulations without executing a single test.
@@ -318,15 +346,20 @@ def _judge(ctx, case, cfg, iu, pool, T, k, inner_swap):
     # -- translating im by the returned shift reproduces ref; so does the returned aligned image
     gy, gx = T["grad"]
     itol = 1.05 * tol * (gy + gx) + 1e-6 * scale
-    e = core.maxerr(R.fourier_shift(im, (r[0], r[1])), ref)
+    e = core.maxerr(R.fourier_shift(imX, (r[0], r[1])), refX)
     _ratio(ctx, "T_r(im)_vs_ref", e, itol)
     if e > itol:
         _fail(tag + "im translated by the returned shift %r differs from ref by %.3g (> %.3g)" % (r.tolist(), e, itol), case)
     if aligned is not None:
-        e = core.maxerr(al, ref)
-        _ratio(ctx, "aligned_vs_ref", e, itol)
-        if e > itol:
-            _fail(tag + "returned aligned image differs from the reference by %.3g (> %.3g)" % (e, itol), case)
+        if qsub:
+            # al - ref = [T_r(imX) - refX] + [T_r(n_im) - n_ref] with n the rounding noise of each image
+            noise = R.drop_nyquist(R.fourier_shift(im - imX, (r[0], r[1])) - (ref - refX))
+            e, atol = float(np.max(np.abs(R.drop_nyquist(al - ref)))), itol + float(np.max(np.abs(noise)))
+        else:
+            e, atol = core.maxerr(al, ref), itol
+        _ratio(ctx, "aligned_vs_ref", e, atol)
+        if e > atol:
+            _fail(tag + "returned aligned image differs from the reference by %.3g (> %.3g)" % (e, atol), case)
 
     # -- swapping the two images negates the result (on the periodic cell)
     if inner_swap is not None and not identical:
@@ -349,7 +382,27 @@ def check(ctx, case):
     if spec["type"] == "noise" and not integer:
         raise core.HarnessError("white-noise images are only defined for integer shifts")
     ref = R.make_image(spec, h, w)
+    in_dtype = case.get("in_dtype")
+    qsub, qdelta = False, 0.0
+    if in_dtype:
+        ref = ref / float(np.max(np.abs(ref)))
     im = ref.copy() if identical else R.fourier_shift(ref, s)
+    refX, imX = ref, im
+    arr_ref, arr_im = ref, im  # the arrays handed to the estimators
+    if in_dtype:
+        A, P = R.INT_DTYPES[in_dtype]
+        arr_ref = R.quantise(ref, in_dtype)
+        if integer:
+            # exact clause: an integer image and its integer circular shift
+            arr_im = np.roll(arr_ref, (int(s[0]), int(s[1])), axis=(0, 1))
+            ref = refX = arr_ref.astype(np.float64)
+            im = imX = arr_im.astype(np.float64)
+        else:
+            # sub-pixel clause: translate the float field, then round both images
+            arr_im = R.quantise(im, in_dtype)
+            qsub = True
+            refX, imX = A * ref + P, A * im + P
+            ref, im = arr_ref.astype(np.float64), arr_im.astype(np.float64)
     beyond = (float(s[0]) % h) > h / 2.0 or (float(s[1]) % w) > w / 2.0
     history = list(case.get("history") or [])
 
@@ -358,15 +411,24 @@ def check(ctx, case):
     # mirrored and the power spectrum is unchanged)
     guard_ok = True
     if not integer:
-        perr = R.peak_conditioning(ref, s)
+        perr = R.peak_conditioning(ref, s, im=im)
         skew = R.skew_bound(ref)
         guard_ok = perr <= GUARD_PARABOLA and skew <= GUARD_SKEW
+        if qsub:
+            # where the correlation peak of the rounded pair really is (float64 Newton iteration)
+            dq = R.true_peak(ref, im, (-float(s[0]), -float(s[1])))
+            if dq is None:
+                guard_ok = False
+            else:
+                qdelta = max(abs(dq[0] + float(s[0])), abs(dq[1] + float(s[1])))
+                guard_ok = guard_ok and qdelta <= GUARD_QUANT
 
     classes = [
         "est:" + est,
         "up:%d" % up,
         "img:" + spec["type"],
         "dtype:" + case["dtype"],
+        "in_dtype:" + (in_dtype or case["dtype"]),
         "shift:" + ("identical" if identical else "integer" if integer else "subpixel"),
         "parity:%s%s" % ("eo"[h % 2], "eo"[w % 2]),
     ]
@@ -391,12 +453,13 @@ def check(ctx, case):
     ctx.record(case, bool(nontrivial), classes)
 
     T = dict(h=h, w=w, spec=spec, ref=ref, im=im, s=(float(s[0]), float(s[1])) if not integer else (s[0], s[1]),
-             integer=integer, identical=identical, guard_ok=guard_ok, grad=R.grad_bounds(ref))
+             integer=integer, identical=identical, guard_ok=guard_ok, grad=R.grad_bounds(refX),
+             refX=refX, imX=imX, qsub=qsub, qdelta=float(qdelta))
     cfg0 = {k: case[k] for k in ("est", "up", "fft_input", "ret_img", "fft_output", "max_shift_margin") if k in case}
-    pool = _Pool(ref, im, case["dtype"])
+    pool = _Pool(arr_ref, arr_im, case["dtype"])
     # without a history every call gets freshly built arrays (the swapped-argument call included);
     # with one, all calls of the case, the swapped-argument call too, share one set of arrays
-    _judge(ctx, case, cfg0, iu, pool, T, 0, pool if history else _Pool(ref, im, case["dtype"]))
+    _judge(ctx, case, cfg0, iu, pool, T, 0, pool if history else _Pool(arr_ref, arr_im, case["dtype"]))
     for k, cfg in enumerate(history, start=1):
         _judge(ctx, case, cfg, iu, pool, T, k, None)
 
